@@ -29,6 +29,7 @@ registry! {
     c01::C01,
     c02::C02,
     c03::C03,
+    c04::C04,
     c05::C05,
     c06::C06,
     c07::C07,
